@@ -484,6 +484,11 @@ impl Property for C16 {
         "C16"
     }
 
+    fn level(&self) -> &'static str {
+        // injected short writes / EAGAIN / EINTR patterns on the tty + model-based queue histories
+        "fault_enumeration"
+    }
+
     fn strategy(&self, tier: Tier) -> BoxedStrategy<Case> {
         let qop = prop_oneof![
             5 => proptest::collection::vec(any::<u8>(), 0..40).prop_map(QOp::Write),
